@@ -210,6 +210,35 @@ func (env *SpecEnv) eval(n *SNode) Val {
 		}
 	case "bin":
 		return env.evalBin(n)
+	case "seqdef":
+		*env.qcount++
+		k := fmt.Sprintf("g_q_%s_%d", n.Vars[0], *env.qcount)
+		body := env.child(map[string]Val{n.Vars[0]: vInt(k, nil)}).eval(n.Args[0])
+		if body.K != KInt && body.K != KNil {
+			env.fail("seqdef: the element must be an integer or reference")
+		}
+		bs := body.S
+		if body.K == KNil {
+			bs = "0"
+		}
+		a := st.fc.fresh("seqdef", "(Array Int Int)")
+		st.addFact(fmt.Sprintf("(forall ((%s Int)) (! (= (select %s %s) %s) :pattern ((select %s %s))))", k, a, k, bs, a, k))
+		return vRaw(a, "(Array Int Int)")
+	case "witness":
+		// choice: W[p] is some k in lo..hi with cond(p,k) whenever one exists (sound: such a W always exists).
+		// The defining axiom is built as a spec formula so that it gets the same trigger-friendly shape as invariants:
+		//   forall p: forall k in lo..hi: cond ==> (lo <= W[p] && W[p] < hi && (let k = W[p]: cond))
+		w := st.fc.fresh("witness", "(Array Int Int)")
+		pn, kn := n.Vars[0], n.Vars[1]
+		id := func(x string) *SNode { return &SNode{Op: "id", Text: x, Pos: n.Pos} }
+		bin := func(op string, l, r *SNode) *SNode { return &SNode{Op: "bin", Text: op, Args: []*SNode{l, r}, Pos: n.Pos} }
+		wp := &SNode{Op: "index", Args: []*SNode{id("$witness"), id(pn)}, Pos: n.Pos}
+		concl := bin("&&", bin("&&", bin("<=", n.Args[0], wp), bin("<", wp, n.Args[1])),
+			&SNode{Op: "let", Vars: []string{kn}, Args: []*SNode{wp, n.Args[2]}, Pos: n.Pos})
+		inner := &SNode{Op: "forall", Vars: []string{kn}, Args: []*SNode{n.Args[0], n.Args[1], bin("==>", n.Args[2], concl)}, Pos: n.Pos}
+		outer := &SNode{Op: "forall", Vars: []string{pn}, Args: []*SNode{nil, nil, inner}, Pos: n.Pos}
+		st.addFact(env.child(map[string]Val{"$witness": vRaw(w, "(Array Int Int)")}).evalBool(outer))
+		return vRaw(w, "(Array Int Int)")
 	case "forall", "exists":
 		return env.evalQuant(n)
 	case "let":
